@@ -158,7 +158,7 @@ class ScenarioModel(histbfs.Model):
     def deviation(self, ev):
         return self.deviations.get(ev[0], 0) if not isinstance(self.deviations.get(ev), int) else self.deviations[ev]
 
-    def build(self, history, want_world=False):
+    def build(self, history, want_log=False):
         sc = scenario.Scenario(self.cfg, max_socks=self.max_socks, start_plan=self.start_plan, app_timeout=self.app_timeout)
         try:
             sc.start()
@@ -181,6 +181,8 @@ class ScenarioModel(histbfs.Model):
                     vs += m.step()
             key = (sc.key(), tuple(m.state() for m in mons))
             info = None
+            if want_log:
+                return key, vs, info, [repr(r) for r in sc.nw.world.log]
             return key, vs, info
         except sk.Livelock as e:
             # the node's threads keep each other busy forever at one instant: no property of a live node holds
@@ -189,9 +191,28 @@ class ScenarioModel(histbfs.Model):
             sc.close()
 
 
+def determinism_selftest(model):
+    """Execute one non-trivial history of the model twice in fresh worlds and require identical keys, violations and
+    observation logs.  Any difference means the harness does not own all nondeterminism: abort (exit 2), never a verdict."""
+    hist = []
+    for ev in model.alphabet():
+        if len(hist) >= 4:
+            break
+        if model.build(tuple(hist) + (ev,)) is not None:
+            hist.append(ev)
+    a = model.build(tuple(hist), want_log=True)
+    b = model.build(tuple(hist), want_log=True)
+    if a is None or b is None or a[0] != b[0] or a[1] != b[1] or a[3] != b[3]:
+        raise sk.HarnessError(f"determinism self-test failed for model {model.name}: the same history {hist} gave two different observations")
+    return len(a[3])
+
+
 def run_models(rep, models, depth, dedup_depth_plain=None, max_deviations=None, time_cap=None):
     """Run BFS for each model; fill the report.  Returns total stats."""
     from .common import Violation
+    if models:
+        n = determinism_selftest(models[0])
+        rep.cov["determinism_selftest"] = f"history of model {models[0].name} executed twice: identical key, verdicts and {n} log records"
     tot = {"states": 0, "transitions": 0, "max_depth": 0, "plain_states": 0, "plain_transitions": 0}
     for model in models:
         st = histbfs.search(model, depth, max_deviations=max_deviations, dedup=True, time_cap=time_cap)
